@@ -34,7 +34,15 @@ def parseSplit (j : Json) (shape : Int) (occ : Nat) : Except String C08Split := 
   let rel := fBoolD j "rel" false
   let o ← match op with
     | "uniform" => do pure (SplitOp.uniform (← fInt j "step"))
-    | "nonuniform" => do pure (SplitOp.nonuniform (← asInts (← field j "splits")))
+    | "nonuniform" => do
+      -- boundaries either as a list or as a fiber ("sfib", depth "sfd"): all stored coordinates
+      match (j.getObjVal? "sfib").toOption.filter (fun v => !v.isNull) with
+      | none => pure (SplitOp.nonuniform (← asInts (← field j "splits")))
+      | some fj =>
+        match fIntD j "sfd" 1 with
+        | 1 => do pure (SplitOp.nonuniform (fiberCoords (show List (Int × T 0) from (← parseTree 1 fj))))
+        | 2 => do pure (SplitOp.nonuniform (fiberCoords (show List (Int × T 1) from (← parseTree 2 fj))))
+        | _ => throw "C08: boundary fiber depth"
     | "equal" => do pure (SplitOp.equal (← fInt j "step"))
     | "unequal" => do pure (SplitOp.unequal (← asInts (← field j "sizes")))
     | "truediv" => do pure (SplitOp.uniform (truedivStep shape (← fInt j "n")))
